@@ -99,7 +99,10 @@ def gen_pair(rng, k, mode, perms=None, sec=None, mtu=None, fixed=None):
         svc_uuid2 = 'BB00'          # the service UUID is the value of the service declaration
     db1 = {'services': [{'uuid': svc_uuid1, 'primary': True, 'chars': chars1}], 'decl_perm': decl}
     db2 = {'services': [{'uuid': svc_uuid2, 'primary': True, 'chars': chars2}], 'decl_perm': decl}
-    return {'mode': mode, 'bearer': bearer, 'db1': db1, 'db2': db2, 'light': perms is not None and not fixed}
+    case = {'mode': mode, 'bearer': bearer, 'db1': db1, 'db2': db2, 'light': perms is not None and not fixed}
+    wire = ac.plan_wire(rng, {'bearer': bearer})
+    case.update({k: v for k, v in wire.items() if k.startswith('eatt_')})
+    return case
 
 
 # ----------------------------------------------------------------------------- several bearers
@@ -127,6 +130,8 @@ def gen_multi(rng, k):
     case['bearers'] = [{'mtu': mtus[0], 'enc': True, 'auth': True, 'enh': False},
                        {'mtu': mtus[1], 'enc': usec[0], 'auth': usec[1], 'enh': False},
                        {'mtu': mtus[2], 'enc': esec[0], 'auth': esec[1], 'enh': True, 'on': eatt_on}]
+    wire = ac.plan_wire(rng, {'bearers': case['bearers']})
+    case.update({k: v for k, v in wire.items() if k.startswith('eatt_')})
     case['observers'] = [1] + ([2] if eatt_on == 1 else [])
     case['multi'] = True
     del case['bearer']
@@ -362,6 +367,7 @@ def load_corpus():
 def build_case(case, rng):
     """scenario pair (same ops) for a case; returns (scn1, scn2, n_read)"""
     key = {'bearers': case['bearers']} if case.get('multi') else {'bearer': case['bearer']}
+    key.update({k: case[k] for k in ('eatt_mtu', 'eatt_mps') if k in case})
     probe1 = ac.run_impl(dict(key, db=case['db1'], ops=[]))
     probe2 = ac.run_impl(dict(key, db=case['db2'], ops=[]))
     if 'ops' in case:
@@ -379,7 +385,7 @@ def build_case(case, rng):
 
 
 def coq_of(s, r):
-    return ac.coq_scenario_multi(r['db'], s) if 'bearers' in s else ac.coq_scenario(r['db'], s)
+    return ac.coq_scenario_multi(r['db'], s, r['init_mtus']) if 'bearers' in s else ac.coq_scenario(r['db'], s, r['init_mtus'])
 
 
 def impl_digest(s, r):
@@ -439,7 +445,8 @@ def check_cases(ctx, cases):
 
 
 def _case_replay(case, s1, n_read):
-    out = {k: case[k] for k in ('mode', 'db1', 'db2', 'bearer', 'bearers', 'observers', 'multi', 'light') if k in case}
+    out = {k: case[k] for k in ('mode', 'db1', 'db2', 'bearer', 'bearers', 'observers', 'multi', 'light', 'eatt_mtu',
+                               'eatt_mps') if k in case}
     out.update(ops=s1['ops'], n_read=n_read)
     return out
 
